@@ -1646,8 +1646,10 @@ func ExistExpr(query *Query, current Map, expr *sqlparser.ExistsExpr, opts ...Ex
 		// ... and inside the subquery the name of its table means the table
 		// being scanned (orders.amount FROM orders), not the outer row's
 		// column that holds it
-		if len(q.alias) == 0 && len(q.table) > 0 {
-			delete(merged, strings.SplitN(q.table, ".", 2)[0])
+		// (a table reached through the outer row's alias, FROM c.orders,
+		// leaves the outer row where it is: c.credit)
+		if holder := strings.SplitN(q.table, ".", 2)[0]; len(q.alias) == 0 && len(q.table) > 0 && holder != query.alias {
+			delete(merged, holder)
 		}
 		for key, value := range item {
 			merged[key] = value
